@@ -204,6 +204,30 @@ def _simple_arg(e):
     return False
 
 
+_PURE_FUNCS = ('len', 'int', 'str', 'bool', 'tuple', 'list', 'set',
+               'sorted', 'repr', 'isinstance', 'getattr')
+
+
+def _dup_safe_arg(e):
+    """An argument that may be written out at every use of the parameter:
+    access paths, constants, dict-style `.get(...)` look-ups and pure
+    builtins over such values."""
+    if _simple_arg(e):
+        return True
+    if isinstance(e, ast.Call) and not any(
+            isinstance(a, ast.Starred) for a in e.args):
+        args = list(e.args) + [k.value for k in e.keywords]
+        if not all(_dup_safe_arg(a) for a in args):
+            return False
+        if isinstance(e.func, ast.Attribute) and e.func.attr == 'get':
+            return _dup_safe_arg(e.func.value)
+        if isinstance(e.func, ast.Name) and e.func.id in _PURE_FUNCS:
+            return True
+    if isinstance(e, (ast.Tuple, ast.List)):
+        return all(_dup_safe_arg(x) for x in e.elts)
+    return False
+
+
 def _bound_names(stmts):
     out = set()
     for st in stmts:
@@ -276,6 +300,8 @@ def _as_expression(body):
     """A straight-line helper `a = e1; b = e2(a); return e3(b)` where every
     local is bound once and read once is the expression e3(e2(e1)); returns
     that expression or None."""
+    if body and any(isinstance(st, ast.If) for st in body):
+        return _decision_expression(body)
     if not body or not isinstance(body[-1], ast.Return) or \
             body[-1].value is None:
         return None
@@ -324,6 +350,41 @@ def _as_expression(body):
 
 class _Site(Exception):
     """This call site cannot be inlined."""
+
+
+def _decision_expression(body):
+    """A helper made only of `if` and `return` statements is a conditional
+    expression: `if c: return a` / `return b` is `a if c else b`; with the
+    constants True / False it is `bool(c)` (or `not c`)."""
+    try:
+        tail = _tailify(copy.deepcopy(body))
+    except _Site:
+        return None
+
+    def conv(stmts):
+        if len(stmts) != 1:
+            return None
+        st = stmts[0]
+        if isinstance(st, ast.Return):
+            return st.value
+        if isinstance(st, ast.If) and st.orelse:
+            a_, b_ = conv(st.body), conv(st.orelse)
+            if a_ is None or b_ is None:
+                return None
+
+            def const(x, v):
+                return isinstance(x, ast.Constant) and x.value is v
+            if const(a_, True) and const(b_, False):
+                return ast.copy_location(ast.Call(
+                    func=ast.Name(id='bool', ctx=ast.Load()),
+                    args=[st.test], keywords=[]), st)
+            if const(a_, False) and const(b_, True):
+                return ast.copy_location(ast.UnaryOp(
+                    op=ast.Not(), operand=st.test), st)
+            return ast.copy_location(ast.IfExp(test=st.test, body=a_,
+                                               orelse=b_), st)
+        return None
+    return conv(tail)
 
 
 def _bind(helper, kind, call):
@@ -451,7 +512,9 @@ def _instantiate(helper, kind, call, caller_idents, tag, target=None):
     order = _bind(helper, kind, call)
     body = copy.deepcopy(_body_wo_doc(helper))
     expr = _as_expression(body)
-    if expr is not None and len(body) > 1:
+    is_expr = expr is not None
+    if expr is not None and (len(body) > 1 or
+                             not isinstance(body[0], ast.Return)):
         body = [ast.copy_location(ast.Return(value=expr), body[-1])]
     bound = _bound_names(body)
     stored = {n.id for st in body for n in ast.walk(st)
@@ -484,7 +547,8 @@ def _instantiate(helper, kind, call, caller_idents, tag, target=None):
             new += '_'
         renames[name] = new
     for p, v in order:
-        if p not in stored and _simple_arg(v):
+        if p not in stored and (_simple_arg(v) or
+                                (is_expr and _dup_safe_arg(v))):
             exprs[p] = v
             renames.pop(p, None)
         else:
@@ -623,6 +687,11 @@ class Inliner:
                     if pre:
                         continue     # needs a statement position: below
                     new = ast.copy_location(b[0].value, call)
+                    if isinstance(new, ast.Call) and \
+                            isinstance(new.func, ast.Name) and \
+                            new.func.id == 'bool' and len(new.args) == 1 \
+                            and self._boolean_context(scope, call):
+                        new = new.args[0]      # `if bool(c):` is `if c:`
                     _Replace(call, new).visit(scope)
                     done.add(id(call))
             if not all(id(c) in done for c in here):
@@ -641,6 +710,26 @@ class Inliner:
         for t in self.trees.values():
             ast.fix_missing_locations(t)
         return bool(done)
+
+    def _boolean_context(self, scope, call):
+        for n in ast.walk(scope):
+            for name, val in ast.iter_fields(n):
+                vals = val if isinstance(val, list) else [val]
+                if not any(v is call for v in vals):
+                    continue
+                if isinstance(n, ast.UnaryOp) and isinstance(n.op, ast.Not):
+                    return True
+                if isinstance(n, ast.BoolOp):
+                    # the value of `a and b` is used as a value unless the
+                    # BoolOp itself is in a boolean context; accept the
+                    # common case of a test
+                    return self._boolean_context(scope, n) or True
+                if name == 'test' and isinstance(n, (ast.If, ast.While,
+                                                     ast.IfExp,
+                                                     ast.Assert)):
+                    return True
+                return False
+        return False
 
     def _container_of(self, tree, node):
         for n in ast.walk(tree):
@@ -704,6 +793,27 @@ class Inliner:
         if len(calls) != 1:
             return [st]
         call = calls[0]
+        # `if a and helper(): body` (no else) is `if a: if helper(): body`
+        if isinstance(st, ast.If) and not st.orelse and \
+                isinstance(st.test, ast.BoolOp) and \
+                isinstance(st.test.op, ast.And):
+            vals = st.test.values
+            for k in range(1, len(vals)):
+                if _first_evaluated(vals[k], call):
+                    outer = vals[0] if k == 1 else ast.copy_location(
+                        ast.BoolOp(op=ast.And(), values=vals[:k]), st.test)
+                    inner_t = vals[k] if k == len(vals) - 1 else \
+                        ast.copy_location(ast.BoolOp(op=ast.And(),
+                                                     values=vals[k:]),
+                                          st.test)
+                    inner = ast.copy_location(
+                        ast.If(test=inner_t, body=st.body, orelse=[]), st)
+                    new_inner = self._stmt(inner, helper, kind, want, idents,
+                                           tag, done)
+                    if id(call) not in done:
+                        return [st]
+                    return [ast.copy_location(
+                        ast.If(test=outer, body=new_inner, orelse=[]), st)]
         target = None
         if isinstance(st, ast.Assign) and st.value is call and \
                 len(st.targets) == 1 and isinstance(st.targets[0], ast.Name):
@@ -782,7 +892,7 @@ class _Desugar(ast.NodeTransformer):
             else:
                 out.extend(rep)
                 self.count += 1
-        return out
+        return self._accumulate(self._devirtualise(out))
 
     def generic_visit(self, node):
         for name in _BLOCKS:
@@ -792,6 +902,111 @@ class _Desugar(ast.NodeTransformer):
         for h in getattr(node, 'handlers', []) or []:
             h.body = self._block(h.body)
         return node
+
+    def _devirtualise(self, stmts):
+        """if c: fn = a
+           else: fn = b
+           fn(x)            ->   if c: a(x)  else: b(x)
+        when fn is a plain local used nowhere else in the block."""
+        out = []
+        i = 0
+        while i < len(stmts):
+            st = stmts[i]
+            nxt = stmts[i + 1] if i + 1 < len(stmts) else None
+            if isinstance(st, ast.If) and nxt is not None and \
+                    len(st.body) == 1 and len(st.orelse) == 1 and \
+                    all(isinstance(b[0], ast.Assign) and
+                        len(b[0].targets) == 1 and
+                        isinstance(b[0].targets[0], ast.Name) and
+                        isinstance(b[0].value, (ast.Name, ast.Attribute))
+                        for b in (st.body, st.orelse)) and \
+                    st.body[0].targets[0].id == st.orelse[0].targets[0].id:
+                var = st.body[0].targets[0].id
+                uses = [n for n in ast.walk(nxt)
+                        if isinstance(n, ast.Name) and n.id == var]
+                calls = [n for n in ast.walk(nxt)
+                         if isinstance(n, ast.Call) and
+                         isinstance(n.func, ast.Name) and n.func.id == var]
+                later = [n for s2 in stmts[i + 2:] for n in ast.walk(s2)
+                         if isinstance(n, ast.Name) and n.id == var]
+                if len(uses) == 1 and len(calls) == 1 and not later and \
+                        isinstance(nxt, (ast.Expr, ast.Assign, ast.Return)):
+                    import copy as _c
+                    arms = []
+                    for b in (st.body, st.orelse):
+                        s2 = _c.deepcopy(nxt)
+                        for n in ast.walk(s2):
+                            if isinstance(n, ast.Call) and \
+                                    isinstance(n.func, ast.Name) and \
+                                    n.func.id == var:
+                                n.func = _c.deepcopy(b[0].value)
+                        arms.append([s2])
+                    out.append(ast.copy_location(
+                        ast.If(test=st.test, body=arms[0], orelse=arms[1]),
+                        st))
+                    self.count += 1
+                    i += 2
+                    continue
+            out.append(st)
+            i += 1
+        return out
+
+    def _accumulate(self, stmts):
+        """x = []
+           for t in it:               ->   x = [e for t in it if c]
+               if c: x.append(e)
+        (the loop body is that single statement)."""
+        out = []
+        i = 0
+        while i < len(stmts):
+            st = stmts[i]
+            nxt = stmts[i + 1] if i + 1 < len(stmts) else None
+            comp = None
+            if isinstance(st, ast.Assign) and len(st.targets) == 1 and \
+                    isinstance(st.targets[0], ast.Name) and (
+                        (isinstance(st.value, ast.List) and
+                         not st.value.elts) or
+                        (isinstance(st.value, ast.Call) and
+                         isinstance(st.value.func, ast.Name) and
+                         st.value.func.id == 'list' and
+                         not st.value.args)) and \
+                    isinstance(nxt, ast.For) and not nxt.orelse and \
+                    len(nxt.body) == 1:
+                var = st.targets[0].id
+                inner = nxt.body[0]
+                tests = []
+                while isinstance(inner, ast.If) and not inner.orelse and \
+                        len(inner.body) == 1:
+                    tests.append(inner.test)
+                    inner = inner.body[0]
+                if isinstance(inner, ast.Expr) and \
+                        isinstance(inner.value, ast.Call) and \
+                        isinstance(inner.value.func, ast.Attribute) and \
+                        inner.value.func.attr == 'append' and \
+                        isinstance(inner.value.func.value, ast.Name) and \
+                        inner.value.func.value.id == var and \
+                        len(inner.value.args) == 1 and \
+                        not inner.value.keywords:
+                    elt = inner.value.args[0]
+                    used = [n for x in [elt, nxt.iter] + tests
+                            for n in ast.walk(x)
+                            if isinstance(n, ast.Name) and n.id == var]
+                    if not used:
+                        gen = ast.comprehension(target=nxt.target,
+                                                iter=nxt.iter, ifs=tests,
+                                                is_async=0)
+                        comp = ast.copy_location(
+                            ast.ListComp(elt=elt, generators=[gen]), nxt)
+            if comp is not None:
+                out.append(ast.copy_location(
+                    ast.Assign(targets=st.targets, value=comp,
+                               lineno=st.lineno), st))
+                self.count += 1
+                i += 2
+                continue
+            out.append(st)
+            i += 1
+        return out
 
     def _rewrite(self, ret):
         v = ret.value
@@ -846,8 +1061,8 @@ def normalise(trees, known=None):
     ({path: ast.Module}); returns the log [(qname, sites, removed)]."""
     if known is None:
         known = baseline()
-    log = Inliner(trees, known).run()
     n = desugar(trees)
+    log = Inliner(trees, known).run()
     if n:
-        log.append(('<return any/all as loop>', n, False))
+        log.append(('<return any/all as loop, calls through a local>', n, False))
     return log
